@@ -5,7 +5,7 @@
    bound is needed, because an sdk overflow takes the SafeMath fallback (all outputs zero), which
    the model contains; the module's 10^40 bound is therefore not a hypothesis.  Dec values (the
    fee rate) are their 10^18-scaled integers; P18 = 10^18. *)
-From Comdex Require Import Lib.Base Lib.DecArith Lib.DecFacts Model.Pool Proofs.PoolProofs.
+From Comdex Require Import Lib.Base Lib.DecArith Lib.DecFacts Model.Pool Proofs.PoolProofs Proofs.PoolCreateProofs.
 From Comdex Require Model.Liquidity Model.LiquidityWitness.
 
 (* A deposit never takes more of either coin than was offered. *)
@@ -19,6 +19,37 @@ Print Assumptions c06_deposit_bounded.
 Example c06_deposit_bounded_ex :
   deposit 1000000 3000000 1000000000000 1234 5000 = Ok (1234, 3702, 1234000000).
 Proof. vm_compute. reflexivity. Qed.
+
+(* Creating a ranged pool never accepts more of either coin than was offered (amm.CreateRangedPool:
+   single-sided at initial = min / max, two-sided inside the range), for ALL offered amounts and all
+   price triples on which the call returns a pool.  The two-sided branch recomputes the accepted x
+   from y only when the y that goes with all of x is STRICTLY more than offered; the proof needs that
+   strictness and the exact rounding of each Quo / Mul (Proofs/PoolCreateProofs.v).
+   PARTIAL in one respect: the hypothesis [ranged_roots_ok] - the three Newton square roots the call
+   computes satisfy 0 < sqrt(min) <= sqrt(initial) <= sqrt(max) - is not derived from
+   ValidateRangedPoolParams (MISSING: a monotonicity / positivity lemma for the 300-step Newton
+   iteration utils.DecApproxSqrt).  It is an executable predicate; the runner evaluates it on every
+   ranged creation it replays and reports a case on which it is false. *)
+Theorem c06_create_ranged_bounded_partial : forall x y minP maxP initP ax ay,
+  0 <= x -> 0 <= y -> ranged_roots_ok minP maxP initP = true ->
+  create_ranged_amounts x y minP maxP initP = Ok (ax, ay) ->
+  0 <= ax <= x /\ 0 <= ay <= y /\ holds_C06_create x y ax ay = true.
+Proof.
+  intros x y minP maxP initP ax ay Hx Hy Hr H.
+  pose proof (create_ranged_amounts_bounded x y minP maxP initP ax ay Hx Hy Hr H) as (A & B).
+  split; [exact A|]. split; [exact B|]. unfold holds_C06_create. lia.
+Qed.
+Print Assumptions c06_create_ranged_bounded_partial.
+
+(* an exactly balanced offer (y = the counterpart the pool computes for x = 10^6 at initial price
+   0.5001 in [0.5, 2]): all of both coins is accepted; one unit less of y and x is recomputed *)
+Example c06_create_ranged_balanced_ex :
+  let minP := 5 * 10 ^ 17 in let maxP := 2 * 10 ^ 18 in let initP := 5001 * 10 ^ 14 in
+  ranged_roots_ok minP maxP initP = true /\
+  create_ranged_amounts 1000000 9998500175 minP maxP initP = Ok (1000000, 9998500175) /\
+  create_ranged_amounts 1000000 9998500174 minP maxP initP = Ok (1000000, 9998500174) /\
+  create_ranged_amounts 1000000 9998500176 minP maxP initP = Ok (1000000, 9998500175).
+Proof. vm_compute. repeat split; reflexivity. Qed.
 
 (* Shares are minted at a rate no better than the pool's reserves per share:
    pc/ps <= x/rx and y/ry exactly (against what was offered), and against what was actually taken
